@@ -193,6 +193,11 @@ func c09Oracle(c ev.Case) Res {
 
 var c09Atoms = []string{"\\'", "''", "'", "\"", "\"\"", "\\\"", "`", "``", "\\\\'", "\\", "$a$", "$$", "$", "$a", "/*", "/**/", "*/", "/*!", "@", "@@", "[", "]", "--", "--\n", "#\n", "#", "1e", "1e+", "0x", "q'(", ")'", "x'", "n'", "u&'", "b'0",
 	"<", "-", "<!---", "--!", "%", "<%%", "%>", "]", "]]", "]]>", "&#", "&#x", "&#1;", "/", "a=b ", "<a ", "<a/", "<a", ">", "=", "='", "=\"", "((1", "1,", "{a ", "(", ")", ";", ",", "a.", ".", "1 ", "a ", "or ", "select ", "union ", "- ", "+", "!", "::", "\x00", "-\x00", " ", "\n", "\xa0", "\xe9", "<!", "<?", "<!--", "<![CDATA[", "</a", "</", "on", "onclick=", "href=", "href=&#", "style=x "}
+// c09PairAtoms: token-forming atoms of both languages; every ordered pair is a family
+// (a scanner that looks far ahead but consumes little only shows when two token kinds alternate)
+var c09PairAtoms = []string{"`a`", "`", "'a'", "'", "\"a\"", "MOD", "or", "select", "union", "a", "1", ".5", "1.", ".", "a.", "0x1", "1e", "$a$", "$a", "$1", "@a", "@", "[a]", "[", "q'(", "n'a'", "x'1'", "u&'a'", "--", "#", "/*", "*/", "/*a*/", "\\", "(", ")", ",", ";", "=", "-", " ", "\n",
+	"<", "<a", "<a ", ">", "/", "b=c", "b='c'", "=", "<!--", "-->", "<!", "<?", "<%", "%>", "]]>", "&#", "&#1;", "-", "\x00", "href=", "onx="}
+
 var c09Prefixes = []string{"", "'", "\"", "`", "/*", "q'(", "q'\xe9", "$a$", "$$", "--", "#", "@", "@`", "[", "1 ", "x' or ", "<a b='", "<a b=\"", "<a b=`", "<a b=", "<a ", "<!--", "<![CDATA[", "<%", "<!", "<?", "<!doctype ", "<", "</", "<a href=", "<a href='"}
 var c09Suffixes = []string{"", "'", "\"", "*/", ")'", "$a$", "-->", "]]>", "%>", ">", " union select 1 --"}
 
@@ -232,7 +237,16 @@ func TestC09(t *testing.T) {
 		add(famCase("counter", "'", u, ""))
 		add(famCase("counter", "<a ", u, ""))
 	}
-	p := c.rec.NewPart("named_families", fmt.Sprintf("%d atoms x %d prefixes, 9 quote/terminator units x prefixes x %d suffixes, counter families", len(c09Atoms), len(c09Prefixes), len(c09Suffixes)), false, true, "")
+	nPairAtoms := len(c09PairAtoms)
+	for i, a := range c09PairAtoms {
+		for j, b := range c09PairAtoms {
+			if thorough() || (i*31+j*17)%2 == 0 { // quick: a fixed half of the ordered pairs
+				add(famCase("repeat", "", a+b, ""))
+			}
+		}
+	}
+	_ = nPairAtoms
+	p := c.rec.NewPart("named_families", fmt.Sprintf("%d atoms x %d prefixes, 9 quote/terminator units x prefixes x %d suffixes, counter families, ordered pairs over %d token-forming atoms (quick: a fixed half)", len(c09Atoms), len(c09Prefixes), len(c09Suffixes), len(c09PairAtoms)), false, true, "")
 	c.ParRange(p, int64(len(fams)), func(w *Worker, i int64) { w.JudgeSlow(fams[i]) })
 
 	if thorough() {
